@@ -224,7 +224,7 @@ def replay(body):
 def run(ctx):
     rng = ctx.rng
     ctx.check_theorems()
-    ctx.check_generated(['blocks', 'crop', 'kcalls', 'k', 'kblocks', 'ucorr', 'dudf'])
+    ctx.check_generated(['blocks', 'crop', 'kcalls', 'k', 'kblocks', 'ucorr', 'dudf', 'kups', 'uzs'])
 
     # (K1) peaks handed to the stand-alone function: spied from the running UDF vs UDF.shifted_peak
     spied = []
